@@ -445,9 +445,14 @@ pub fn start_senders(w: &Rc<World>, plan: &Rc<Plan>, sink: v3::MqttSink) {
     if plan.senders.iter().flatten().any(|o| matches!(o, AppOp::PubQ1Nb { .. })) {
         let w = w.clone();
         let q = if plan.cfg.cb_queries { Some(sink.clone()) } else { None };
+        let cb_sends = plan.cfg.cb_sends;
         sink.publish_ack_cb(move |pid, disc| {
             if let Some(s) = &q {
                 w.cb_query(s.is_open(), s.is_ready(), s.credit());
+                if cb_sends {
+                    let r = s.publish(ByteString::from_static("cb/q0")).send_at_most_once(Bytes::from_static(b"cb"));
+                    w.probe(if r.is_ok() { "cb_send_ok" } else { "cb_send_err" });
+                }
             }
             w.ack_cb(pid.get(), 0, 0, disc)
         });
